@@ -253,42 +253,3 @@ fn c16_last_day_daily() {
         let _ = inner.advance_date(now, cur);
     }
 }
-
-/// experiment: every instant of the leap year 2024
-#[kani::proof]
-#[kani::unwind(2)]
-#[kani::stub(std::rt::thread_cleanup, noop)]
-#[kani::stub(core::fmt::write, fmt_write_stub)]
-fn x16_wide_daily_2024() {
-    let o = step_span(DAILY, 1_704_067_200, false, 0, 366 * 86400 - 1);
-    kani::cover!(o.rotated && o.ps == o.next);
-    kani::cover!(!o.rotated && o.now == o.next - 1);
-}
-#[kani::proof]
-#[kani::unwind(2)]
-#[kani::stub(std::rt::thread_cleanup, noop)]
-#[kani::stub(core::fmt::write, fmt_write_stub)]
-fn x16_wide_minutely_2024() {
-    let o = step_span(MINUTELY, 1_704_067_200, false, 0, 366 * 86400 - 1);
-    kani::cover!(o.rotated && o.ps == o.next);
-    kani::cover!(!o.rotated && o.now == o.next - 1);
-}
-#[kani::proof]
-#[kani::unwind(2)]
-#[kani::stub(std::rt::thread_cleanup, noop)]
-#[kani::stub(core::fmt::write, fmt_write_stub)]
-fn x16_wide_hourly_2024() {
-    let o = step_span(HOURLY, 1_704_067_200, false, 0, 366 * 86400 - 1);
-    kani::cover!(o.rotated && o.ps == o.next);
-    kani::cover!(!o.rotated && o.now == o.next - 1);
-}
-#[kani::proof]
-#[kani::unwind(2)]
-#[kani::stub(std::rt::thread_cleanup, noop)]
-#[kani::stub(core::fmt::write, fmt_write_stub)]
-fn x16_wide_minutely_feb2024() {
-    // 2024-02-15 .. 2024-03-16
-    let o = step_span(MINUTELY, 1_707_955_200, false, 0, 30 * 86400 - 1);
-    kani::cover!(o.rotated && o.ps == o.next);
-    kani::cover!(!o.rotated && o.now == o.next - 1);
-}
